@@ -23,7 +23,7 @@ func isReleaseCall(cc *ssa.CallCommon) (string, bool) {
 
 func runC06(c *Ctx) {
 	p, r := c.P, c.R
-	r.Explanation = "Decides the pairing discipline between pipeline-set mutations and reference-count updates, each a necessary condition of 'in use iff some registered pipeline lists the node': reference counts are written, and graphMap.Store/Delete called, only in Broker methods under Broker.lock held for writing; every path through a Store increments once per element of the stored pipeline's flattened node set in a full loop before the successful return; every path through a Delete, or through a Store that may replace an entry, either established that no such pipeline exists or releases exactly the ids obtained from graphMap.Nodes for the same key on the same map; increments and releases iterate the same abstraction (the flattened set of the linked list); the release operation's full decision table over count in {0,1,>=2} x force (refuse without effect / unregister and hand back for closing / decrement); every node handed back for closing is closed exactly once, outside the lock, on every path; RemovePipelineAndNodes returns true after the delete. The invariant over arbitrary call histories as such is not decided; these are its inductive-step obligations."
+	r.Explanation = "Decides the pairing discipline between pipeline-set mutations and reference-count updates, each a necessary condition of 'in use iff some registered pipeline lists the node': reference counts are written, and graphMap.Store/Delete called, only in Broker methods under Broker.lock held for writing; every path through a Store increments once per element of the stored pipeline's flattened node set in a full loop before the successful return; every path through a Delete, or through a Store that may replace an entry, either established that no such pipeline exists or releases exactly the ids obtained from graphMap.Nodes for the same key on the same map; increments and releases iterate the same abstraction (the flattened set of the linked list); the release operation's full decision table over count in {0,1,>=2} x force (refuse without effect / unregister and hand back for closing / decrement); every node handed back for closing is closed exactly once, outside the lock, on every path; RemovePipelineAndNodes returns true after the delete. The invariant over arbitrary call histories as such is not decided; these are its inductive-step obligations. C06.registry: the registry only gains fresh records around caller-supplied nodes; C06.flatten: the flattened set contains every linked node; C06.carry: an overwrite decides the count carry-over from the existing entry's policy."
 	r.NotDecided = []string{"the reference-count invariant over arbitrary histories (a reachability question over broker states)", "that user Close implementations are idempotent"}
 	tb := p.NewTerms(nil)
 	must := c.MustLocks()
@@ -63,6 +63,8 @@ func runC06(c *Ctx) {
 
 	c.ruleRegistryInserts()
 	c.ruleFlatten()
+	// re-registering a node keeps the count of the pipelines that still list it
+	c.ruleRegisterNode("C06.carry")
 
 	// --- C06.inc / C06.replace / C06.dec on paths
 	for _, f := range p.FuncsIn(PkgRoot) {
@@ -578,7 +580,7 @@ func (c *Ctx) ruleCloseOnce() {
 				full, _ := c.fullLoop(un, false)
 				// reached only when err == nil
 				cond, _, fsucc := condOf(un.Block())
-				if bo, isB := cond.(*ssa.BinOp); isB && bo.Op == token.NEQ && full && (fsucc == call.Block() || fsucc.Dominates(call.Block())) {
+				if bo, isB := cond.(*ssa.BinOp); isB && bo.Op == token.NEQ && full && edgeDominates(un.Block(), fsucc, call.Block()) {
 					okApp = true
 				}
 			}
@@ -595,9 +597,9 @@ func (c *Ctx) ruleCloseOnce() {
 
 func runC07(c *Ctx) {
 	p, r := c.P, c.R
-	r.Explanation = "Decides the overwrite-policy clauses structurally: both option constructors store exactly the two valid policies and reject everything else without storing (decision table over the policy value); RegisterNode cannot reach its map assignment when the EXISTING entry's policy is DenyOverwrite, the new entry carries the option's policy and, on overwrite, the old count; RegisterPipeline tests the policy of the existing entry whose key equals def.PipelineID in the graph of def.EventType, cannot reach Store when it is DenyOverwrite, and the new entry carries the option's policy; a successful call performs exactly one Store of a fresh registration whose root was linked by this very call (with C04.immutable: no in-place edits of published lists — the structural premise of 'each Send sees exactly one version'); policies live only inside the entries that removal deletes. What a concurrent Send observes during the swap is sync.Map semantics (A4). C07.defaults: both policies default to AllowOverwrite and getOpts applies every non-nil option of the whole list to the one defaults-initialised struct, returning it or the option error."
+	r.Explanation = "Decides the overwrite-policy clauses structurally: both option constructors store exactly the two valid policies and reject everything else without storing (decision table over the policy value); RegisterNode cannot reach its map assignment when the EXISTING entry's policy is DenyOverwrite, the new entry carries the option's policy and, on overwrite, the old count; RegisterPipeline tests the policy of the existing entry whose key equals def.PipelineID in the graph of def.EventType, cannot reach Store when it is DenyOverwrite, and the new entry carries the option's policy; a successful call performs exactly one Store of a fresh registration whose root was linked by this very call (with C04.immutable: no in-place edits of published lists — the structural premise of 'each Send sees exactly one version'); policies live only inside the entries that removal deletes. What a concurrent Send observes during the swap is sync.Map semantics (A4). C07.defaults: both policies default to AllowOverwrite and getOpts applies every non-nil option of the whole list to the one defaults-initialised struct, returning it or the option error. C07.section: validation and commit in one critical section."
 	r.NotDecided = []string{"what a concurrent Send observes while the Store happens (sync.Map semantics, A4)"}
-	tb := p.NewTerms(nil)
+	_ = p
 	c.ruleOptionDefaults()
 	// --- C07.opts
 	for _, name := range []string{"WithPipelineRegistrationPolicy", "WithNodeRegistrationPolicy"} {
@@ -663,141 +665,10 @@ func runC07(c *Ctx) {
 	r.Floor("C07.opts", 6)
 
 	// --- C07.node
-	if fn := c.Fn("C07.node", PkgRoot, "Broker", "RegisterNode"); fn != nil {
-		nAssign := 0
-		for _, pa := range c.enum("C07.node", fn, PathOpts{Inline: inlineSmall("eventlogger.getOpts")}) {
-			var mu *ssa.MapUpdate
-			var muStep Step
-			for _, s := range pa.Steps {
-				if x, ok := s.In.(*ssa.MapUpdate); ok && pa.TermsAt(s).Of(x.Map).Is("Field", "nodes") {
-					mu, muStep = x, s
-				}
-			}
-			if mu == nil {
-				continue
-			}
-			nAssign++
-			stb := pa.TermsAt(muStep)
-			existsPol, existsFound := hasAtom(pa, func(at Atom) bool {
-				return at.Op == "true" && at.L.String() == "Extract[1](Lookup(Field[nodes](Param(0:b)),Param(1:id)))"
-			})
-			denyPol, denyFound := hasAtom(pa, func(at Atom) bool {
-				return at.Op == "eq" && at.L.String() == "Field[registrationPolicy](Extract[0](Lookup(Field[nodes](Param(0:b)),Param(1:id))))" && at.R.Is("Const", `"DenyOverwrite"`)
-			})
-			allowPol, allowFound := hasAtom(pa, func(at Atom) bool {
-				return at.Op == "eq" && at.L.String() == "Field[registrationPolicy](Extract[0](Lookup(Field[nodes](Param(0:b)),Param(1:id))))" && at.R.Is("Const", `"AllowOverwrite"`)
-			})
-			if !existsFound {
-				r.Bad("C07.node", "RegisterNode:assign", p.InstrPos(mu), "the node is assigned on a path that never looked the id up")
-				continue
-			}
-			if existsPol {
-				// the existing entry's policy must have been established not to be Deny
-				notDeny := (denyFound && !denyPol) || (allowFound && allowPol)
-				if !notDeny {
-					r.Bad("C07.node", "RegisterNode:deny", p.InstrPos(mu), "an existing node is overwritten on a path that did not establish that ITS stored policy is not DenyOverwrite", p.PathSummary(pa))
-					continue
-				}
-			}
-			// the new entry
-			nr, isAlloc := pa.Resolve(muStep, mu.Value).(*ssa.Alloc)
-			okNew := isAlloc && stb.Of(mu.Key).IsParam("1:id")
-			if okNew {
-				f := litFields(pa, nr, stepIndex(pa, mu))
-				okNew = stb.Of(f["node"]).IsParam("2:node") &&
-					stb.Of(f["registrationPolicy"]).String() == "Field[withNodeRegistrationPolicy](Extract[0](Call[eventlogger.getOpts](Param(3:opt))))"
-				rc := stb.Of(f["referenceCount"]).String()
-				if existsPol && allowFound && allowPol {
-					okNew = okNew && rc == "Field[referenceCount](Extract[0](Lookup(Field[nodes](Param(0:b)),Param(1:id))))"
-				} else if !existsPol {
-					okNew = okNew && rc == "Const(0)"
-				}
-			}
-			r.Check(okNew, "C07.node", "RegisterNode:new-entry", p.InstrPos(mu), "nodes[id] = {node, policy from the option, count carried over on overwrite / 0 when new}", "the new usage record does not carry the given node, the option's policy and the right reference count")
-		}
-		r.Check(nAssign >= 2, "C07.node", "RegisterNode:assign", p.Pos(fn.Pos()), fmt.Sprintf("%d assigning paths, none through a DenyOverwrite entry", nAssign), "fewer than 2 assigning paths")
-		// deny path errors
-		for _, pa := range c.enum("C07.node", fn, PathOpts{}) {
-			if pol, found := hasAtom(pa, func(at Atom) bool {
-				return at.Op == "eq" && at.L.Is("Field", "registrationPolicy") && at.R.Is("Const", `"DenyOverwrite"`)
-			}); found && pol {
-				failed, _ := pathFailed(pa, false)
-				r.Check(failed, "C07.node", "RegisterNode:deny", p.InstrPos(pa.End), "an existing DenyOverwrite node makes RegisterNode fail", "RegisterNode succeeds although the existing node forbids overwriting")
-			}
-		}
-	}
-
+	c.ruleRegisterNode("C07.node")
 	// --- C07.pipeline
-	if fn := c.Fn("C07.pipeline", PkgRoot, "Broker", "RegisterPipeline"); fn != nil {
-		// the policy variable: a cell assigned in the Range callback from the existing entry with the same id
-		rc := callsTo(fn, func(n string, cc *ssa.CallCommon) bool { return n == "(*eventlogger.graphMap).Range" })
-		var polCell ssa.Value
-		okCb := false
-		if len(rc) == 1 {
-			if mc, ok := rc[0].Common().Args[1].(*ssa.MakeClosure); ok {
-				cb := mc.Fn.(*ssa.Function)
-				r.SawFn(p.ShortFn(cb))
-				for _, pa := range c.enum("C07.pipeline", cb, PathOpts{}) {
-					for _, s := range pa.Steps {
-						st, ok := s.In.(*ssa.Store)
-						if !ok {
-							continue
-						}
-						ctb := pa.TermsAt(s)
-						if ctb.Of(st.Val).String() != "Field[registrationPolicy](Param(1:v))" {
-							r.Bad("C07.pipeline", "RegisterPipeline:policy-source", p.InstrPos(st), "the policy variable is assigned "+ctb.Of(st.Val).String()+", not the existing entry's registrationPolicy")
-							continue
-						}
-						pol, found := hasAtom(pa, func(at Atom) bool {
-							return at.Op == "eq" && ((at.L.IsParam("0:key") && at.R.String() == "Field[PipelineID](Param(1:def))") || (at.R.IsParam("0:key") && at.L.String() == "Field[PipelineID](Param(1:def))"))
-						})
-						if found && pol {
-							okCb = true
-							polCell = ctb.Of(st.Addr).V
-						} else {
-							r.Bad("C07.pipeline", "RegisterPipeline:policy-source", p.InstrPos(st), "the policy is taken from an entry whose key was not compared equal to def.PipelineID")
-						}
-					}
-				}
-				// the range is over the graph of def.EventType
-				recv := tb.Of(rc[0].Common().Args[0])
-				if b, ok := recv.IsFieldAddr("roots"); !ok || !(strings.Contains(b.String(), "Lookup(Field[graphs](Param(0:b)),Field[EventType](Param(1:def)))") || b.Op == "Phi" || b.Op == "Alloc") {
-					okCb = false
-				}
-			}
-		}
-		r.Check(okCb, "C07.pipeline", "RegisterPipeline:policy-source", p.Pos(fn.Pos()), "the policy consulted is the registrationPolicy of the existing entry whose key equals def.PipelineID in def.EventType's graph", "the policy consulted is not that of the existing pipeline with the same id and type")
-		// Store unreachable when the cell == Deny; Deny path fails
-		if polCell != nil {
-			for _, pa := range c.enum("C07.pipeline", fn, PathOpts{}) {
-				pol, found := hasAtom(pa, func(at Atom) bool {
-					if at.Op != "eq" || !at.R.Is("Const", `"DenyOverwrite"`) {
-						return false
-					}
-					ld, ok := at.L.V.(*ssa.UnOp)
-					return ok && ld.X == polCell
-				})
-				stored := false
-				for _, s := range pa.CallsOn() {
-					if stepCallName(s) == "(*eventlogger.graphMap).Store" {
-						stored = true
-					}
-				}
-				if stored && !(found && !pol) {
-					r.Bad("C07.pipeline", "RegisterPipeline:deny", p.InstrPos(pa.End), "Store is reachable without establishing that the existing policy is not DenyOverwrite")
-				}
-				if found && pol {
-					failed, _ := pathFailed(pa, false)
-					if !failed || stored {
-						r.Bad("C07.pipeline", "RegisterPipeline:deny", p.InstrPos(pa.End), "an existing DenyOverwrite pipeline does not make RegisterPipeline fail before storing")
-					} else {
-						r.Ok("C07.pipeline", "RegisterPipeline:deny", p.InstrPos(pa.End), "an existing DenyOverwrite pipeline makes RegisterPipeline fail; Store is unreachable")
-					}
-				}
-			}
-		}
-		r.Floor("C07.pipeline", 2)
-	}
+	c.rulePolicySource("C07.pipeline")
+	c.ruleOneSection("C07.section")
 	// --- C07.swap (shares the commit rule: exactly one Store of a fresh registration linked by this call)
 	c.ruleCommit()
 	// rename the commit rule's verdicts for this property
@@ -896,4 +767,159 @@ func (c *Ctx) ruleSingleStore(rule string) {
 	del := find(fn, map[*ssa.Function]bool{})
 	r.Check(!del, rule, "RegisterPipeline:single-store", p.Pos(fn.Pos()), "registration never deletes from the graph: an overwrite is a single Store (a concurrent Send sees the old or the new version, never neither)",
 		"RegisterPipeline can delete a pipeline from the graph before storing its replacement: a concurrent Send (which ranges the sync.Map without the broker lock) is processed by neither version, and a failing overwrite loses the original: "+strings.Join(chain, " <- "))
+}
+
+// rulePolicySource: RegisterPipeline consults the registration policy of the existing
+// entry whose key equals def.PipelineID in def.EventType's graph (and of no other
+// entry), cannot reach Store when it is DenyOverwrite, and fails on that path.
+func (c *Ctx) rulePolicySource(rule string) {
+	p, r := c.P, c.R
+	tb := p.NewTerms(nil)
+	if fn := c.Fn(rule, PkgRoot, "Broker", "RegisterPipeline"); fn != nil {
+		// the policy variable: a cell assigned in the Range callback from the existing entry with the same id
+		rc := callsTo(fn, func(n string, cc *ssa.CallCommon) bool { return n == "(*eventlogger.graphMap).Range" })
+		var polCell ssa.Value
+		okCb := false
+		if len(rc) == 1 {
+			if mc, ok := rc[0].Common().Args[1].(*ssa.MakeClosure); ok {
+				cb := mc.Fn.(*ssa.Function)
+				r.SawFn(p.ShortFn(cb))
+				for _, pa := range c.enum(rule, cb, PathOpts{}) {
+					for _, s := range pa.Steps {
+						st, ok := s.In.(*ssa.Store)
+						if !ok {
+							continue
+						}
+						ctb := pa.TermsAt(s)
+						if ctb.Of(st.Val).String() != "Field[registrationPolicy](Param(1:v))" {
+							r.Bad(rule, "RegisterPipeline:policy-source", p.InstrPos(st), "the policy variable is assigned "+ctb.Of(st.Val).String()+", not the existing entry's registrationPolicy")
+							continue
+						}
+						pol, found := hasAtom(pa, func(at Atom) bool {
+							return at.Op == "eq" && ((at.L.IsParam("0:key") && at.R.String() == "Field[PipelineID](Param(1:def))") || (at.R.IsParam("0:key") && at.L.String() == "Field[PipelineID](Param(1:def))"))
+						})
+						if found && pol {
+							okCb = true
+							polCell = ctb.Of(st.Addr).V
+						} else {
+							r.Bad(rule, "RegisterPipeline:policy-source", p.InstrPos(st), "the policy is taken from an entry whose key was not compared equal to def.PipelineID")
+						}
+					}
+				}
+				// the range is over the graph of def.EventType
+				recv := tb.Of(rc[0].Common().Args[0])
+				if b, ok := recv.IsFieldAddr("roots"); !ok || !(strings.Contains(b.String(), "Lookup(Field[graphs](Param(0:b)),Field[EventType](Param(1:def)))") || b.Op == "Phi" || b.Op == "Alloc") {
+					okCb = false
+				}
+			}
+		}
+		r.Check(okCb, rule, "RegisterPipeline:policy-source", p.Pos(fn.Pos()), "the policy consulted is the registrationPolicy of the existing entry whose key equals def.PipelineID in def.EventType's graph", "the policy consulted is not that of the existing pipeline with the same id and type")
+		// Store unreachable when the cell == Deny; Deny path fails
+		if polCell != nil {
+			for _, pa := range c.enum(rule, fn, PathOpts{}) {
+				pol, found := hasAtom(pa, func(at Atom) bool {
+					if at.Op != "eq" || !at.R.Is("Const", `"DenyOverwrite"`) {
+						return false
+					}
+					ld, ok := at.L.V.(*ssa.UnOp)
+					return ok && ld.X == polCell
+				})
+				stored := false
+				for _, s := range pa.CallsOn() {
+					if stepCallName(s) == "(*eventlogger.graphMap).Store" {
+						stored = true
+					}
+				}
+				if stored && !(found && !pol) {
+					r.Bad(rule, "RegisterPipeline:deny", p.InstrPos(pa.End), "Store is reachable without establishing that the existing policy is not DenyOverwrite")
+				}
+				if found && pol {
+					failed, _ := pathFailed(pa, false)
+					if !failed || stored {
+						r.Bad(rule, "RegisterPipeline:deny", p.InstrPos(pa.End), "an existing DenyOverwrite pipeline does not make RegisterPipeline fail before storing")
+					} else {
+						r.Ok(rule, "RegisterPipeline:deny", p.InstrPos(pa.End), "an existing DenyOverwrite pipeline makes RegisterPipeline fail; Store is unreachable")
+					}
+				}
+			}
+		}
+		r.Floor(rule, 2)
+	}
+}
+
+// ruleRegisterNode: RegisterNode cannot reach its map assignment when the EXISTING
+// entry's policy is DenyOverwrite; the new entry carries the given node, the option's
+// policy and — on overwrite, decided from the existing entry's policy — the old count.
+func (c *Ctx) ruleRegisterNode(rule string) {
+	p, r := c.P, c.R
+	if fn := c.Fn(rule, PkgRoot, "Broker", "RegisterNode"); fn != nil {
+		nAssign := 0
+		for _, pa := range c.enum(rule, fn, PathOpts{Inline: inlineSmall("eventlogger.getOpts")}) {
+			var mu *ssa.MapUpdate
+			var muStep Step
+			for _, s := range pa.Steps {
+				if x, ok := s.In.(*ssa.MapUpdate); ok && pa.TermsAt(s).Of(x.Map).Is("Field", "nodes") {
+					mu, muStep = x, s
+				}
+			}
+			if mu == nil {
+				continue
+			}
+			nAssign++
+			stb := pa.TermsAt(muStep)
+			existsPol, existsFound := hasAtom(pa, func(at Atom) bool {
+				return at.Op == "true" && at.L.String() == "Extract[1](Lookup(Field[nodes](Param(0:b)),Param(1:id)))"
+			})
+			denyPol, denyFound := hasAtom(pa, func(at Atom) bool {
+				return at.Op == "eq" && at.L.String() == "Field[registrationPolicy](Extract[0](Lookup(Field[nodes](Param(0:b)),Param(1:id))))" && at.R.Is("Const", `"DenyOverwrite"`)
+			})
+			allowPol, allowFound := hasAtom(pa, func(at Atom) bool {
+				return at.Op == "eq" && at.L.String() == "Field[registrationPolicy](Extract[0](Lookup(Field[nodes](Param(0:b)),Param(1:id))))" && at.R.Is("Const", `"AllowOverwrite"`)
+			})
+			if !existsFound {
+				r.Bad(rule, "RegisterNode:assign", p.InstrPos(mu), "the node is assigned on a path that never looked the id up")
+				continue
+			}
+			if existsPol {
+				// the existing entry's policy must have been established not to be Deny
+				notDeny := (denyFound && !denyPol) || (allowFound && allowPol)
+				if !notDeny {
+					r.Bad(rule, "RegisterNode:deny", p.InstrPos(mu), "an existing node is overwritten on a path that did not establish that ITS stored policy is not DenyOverwrite", p.PathSummary(pa))
+					continue
+				}
+			}
+			// an overwrite (the id exists, its policy is not Deny) must have looked at the EXISTING
+			// entry's policy to decide whether the count is carried over — not at the new record's
+			if existsFound && existsPol && !allowFound {
+				r.Bad(rule, "RegisterNode:carry-decision", p.InstrPos(mu), "an existing node is overwritten on a path that never compares ITS stored policy with AllowOverwrite: whether the reference count is carried over is decided from something else (e.g. the new registration's policy), so an in-use node can be re-registered with a count of 0", p.PathSummary(pa))
+				continue
+			}
+			// the new entry
+			nr, isAlloc := pa.Resolve(muStep, mu.Value).(*ssa.Alloc)
+			okNew := isAlloc && stb.Of(mu.Key).IsParam("1:id")
+			if okNew {
+				f := litFields(pa, nr, stepIndex(pa, mu))
+				okNew = stb.Of(f["node"]).IsParam("2:node") &&
+					stb.Of(f["registrationPolicy"]).String() == "Field[withNodeRegistrationPolicy](Extract[0](Call[eventlogger.getOpts](Param(3:opt))))"
+				rc := stb.Of(f["referenceCount"]).String()
+				if existsPol && allowFound && allowPol {
+					okNew = okNew && rc == "Field[referenceCount](Extract[0](Lookup(Field[nodes](Param(0:b)),Param(1:id))))"
+				} else if !existsPol {
+					okNew = okNew && rc == "Const(0)"
+				}
+			}
+			r.Check(okNew, rule, "RegisterNode:new-entry", p.InstrPos(mu), "nodes[id] = {node, policy from the option, count carried over on overwrite / 0 when new}", "the new usage record does not carry the given node, the option's policy and the right reference count")
+		}
+		r.Check(nAssign >= 2, rule, "RegisterNode:assign", p.Pos(fn.Pos()), fmt.Sprintf("%d assigning paths, none through a DenyOverwrite entry", nAssign), "fewer than 2 assigning paths")
+		// deny path errors
+		for _, pa := range c.enum(rule, fn, PathOpts{}) {
+			if pol, found := hasAtom(pa, func(at Atom) bool {
+				return at.Op == "eq" && at.L.Is("Field", "registrationPolicy") && at.R.Is("Const", `"DenyOverwrite"`)
+			}); found && pol {
+				failed, _ := pathFailed(pa, false)
+				r.Check(failed, rule, "RegisterNode:deny", p.InstrPos(pa.End), "an existing DenyOverwrite node makes RegisterNode fail", "RegisterNode succeeds although the existing node forbids overwriting")
+			}
+		}
+	}
+
 }
